@@ -31,6 +31,11 @@ typedef struct {
     int p16;		/* 16-term universe that also holds standards leaving
 			   a port open; judged by the rank of the documented
 			   linear system (cs_terms_rank16) */
+    int kit;		/* two-port universe of a measured kit: three scalar
+			   reflects per port given as 1x1, a through, and an
+			   isolation standard (match on both ports, explicit
+			   zeros between them) that is the only witness of
+			   the leakage terms and comes last */
 } shape_t;
 
 static const shape_t shapes_quick[] = {
@@ -69,6 +74,11 @@ static const shape_t shapes_quick[] = {
     { VNACAL_T16, 2, 2, 0, 0, 1 },  { VNACAL_U16, 2, 2, 0, 0, 2 },
     /* 16-term sets mixing full two-port standards with one-port ones */
     { VNACAL_T16, 2, 2, 0, 0, 0, 1 }, { VNACAL_U16, 2, 2, 0, 0, 0, 1 },
+    /* measured kits: eight or more distinct parameters in one calibration,
+       the explicit zero used last */
+    { VNACAL_TE10, 2, 2, 0, 0, 3, 0, 1 }, { VNACAL_UE10, 2, 2, 0, 0, 3, 0, 1 },
+    { VNACAL_UE14, 2, 2, 0, 0, 3, 0, 1 }, { VNACAL_E12, 2, 2, 0, 0, 3, 0, 1 },
+    { VNACAL_T8, 2, 2, 0, 0, 3, 0, 1 },
 };
 #define NSHAPE_QUICK ((int)(sizeof(shapes_quick) / sizeof(shapes_quick[0])))
 static const shape_t shapes_more[] = {
@@ -174,6 +184,18 @@ static int universe0(cs_scenario *sc, const shape_t *sh, int tier)
 	return sc->nstd;
     }
 
+    if (sh->kit) {
+	static const int kr[2][3] = { { PR4, PL11, PL12 },
+	    { PL21, PL22, PD0 } };
+	int iso[4] = { PM, -1, -1, PM };
+	for (int port = 1; port <= 2; ++port)
+	    for (int k = 0; k < 3; ++k)
+		add_std(sc, CSE_SINGLE, 1, port, 0, &kr[port - 1][k], NULL);
+	add_std(sc, CSE_THROUGH, 2, 1, 2, NULL, through_v);
+	add_std(sc, CSE_MAPPED, 2, 1, 2, iso, NULL);
+	sc->std[sc->nstd - 1].null_map = true;
+	return sc->nstd;
+    }
     if (is16(sh->type)) {
 	if (P == 1) {
 	    int r[4] = { PS, PO, PM, PR4 };
@@ -443,6 +465,11 @@ static void run(int tier, long idx, vf_result *r)
     int order = (int)(idx % norders(tier));
     unsigned mask = (unsigned)(idx / norders(tier));
     const shape_t *sh = shape(shp);
+    /* a kit sits high in the parameter table in every case: its first
+       handle is 16, a multiple of the size the per-calibration table
+       grows to */
+    if (sh->kit)
+	cs_param_fillers = 13;
     int nL = universe(&uni, sh, tier);
     if (descending)
 	reverse_port_lists(&uni);
